@@ -405,7 +405,7 @@ func (e *env) framing(cs consensus.State, blk types.Block) {
 			encRen := func() []byte {
 				var buf bytes.Buffer
 				en := types.NewEncoder(&buf)
-				ren.EncodeTo(en) // signatures are zero, as in the semantic encoding
+				ren.EncodeTo(en)  // signatures are zero, as in the semantic encoding
 				en.WriteUint64(0) // attestations of the renewing transaction
 				en.WriteUint64(0) // its arbitrary data
 				en.Flush()
@@ -520,6 +520,20 @@ func (e *env) eras(cs consensus.State, blk types.Block) {
 		}
 		e.b.Count("era_separation_cases", 1)
 		e.b.Eval(1)
+		// the first block of an era: every other rule of these forks (subsidy, nonce factor, "v2 allowed") switches
+		// for the block AT the fork height, i.e. when the parent state has height fork-1; the signature hashes that
+		// validate that block must then differ from those of the block before it
+		for name, h := range heights {
+			if h < 2 {
+				continue
+			}
+			last, first := cs, cs
+			last.Index.Height, first.Index.Height = h-2, h-1 // parents of the last block of the old era and of the first of the new
+			e.b.Count("era_first_block_cases", 1)
+			if last.WholeSigHash(t, s0.ParentID, s0.PublicKeyIndex, s0.Timelock, nil) == first.WholeSigHash(t, s0.ParentID, s0.PublicKeyIndex, s0.Timelock, nil) {
+				e.b.Violate("C12/sighash-not-bound-to-era/WholeSigHash/first-block-of-the-era", fmt.Sprintf("the signature hash that validates the block at the %s fork height (%d) equals the one of the block before it: a signature made in the old era is valid in the first block of the new one", name, h), map[string]any{"fork": name, "height": h})
+			}
+		}
 		break
 	}
 }
@@ -732,6 +746,54 @@ func encState(s consensus.State) []byte {
 	return buf.Bytes()
 }
 
+// attestationReplay: an attestation-only transaction consumes nothing, so its ID - and the IDs of the attestation
+// elements derived from it - are only unique if the transaction cannot be included again. The same transaction is
+// placed twice in one block and offered to the real ValidateBlock; if the block is accepted and applied, two distinct
+// elements (two accumulator leaves) carry one AttestationID.
+func (e *env) attestationReplay() bool {
+	c := e.c
+	cs := c.Tip()
+	if cs.Index.Height+1 < c.Net.N.HardforkV2.AllowHeight {
+		return false
+	}
+	key := c.W.Keys[2]
+	a := types.Attestation{PublicKey: key.PublicKey(), Key: "HostAnnouncement", Value: []byte("host.example:9984")}
+	a.Signature = key.SignHash(cs.AttestationSigHash(a))
+	t := types.V2Transaction{Attestations: []types.Attestation{a}}
+	blk, bs, err := c.BlockWith(nil, []types.V2Transaction{chaingen.CloneV2(t), chaingen.CloneV2(t)})
+	if err != nil {
+		return false
+	}
+	e.b.Eval(1)
+	e.b.Count("attestation_only_transaction_repeated", 1)
+	if consensus.ValidateBlock(cs, blk, bs) != nil {
+		e.b.Count("attestation_only_repetition_rejected", 1)
+		return true
+	}
+	_, au := consensus.ApplyBlock(cs, blk, bs, c.AncestorTimestamp(cs.Index.Height))
+	n := 0
+	leaves := []uint64{}
+	// the attestation elements are only visible in the JSON form of the update
+	var aj struct {
+		AttestationElements []types.AttestationElement `json:"attestationElements"`
+	}
+	if js, err := json.Marshal(au); err != nil || json.Unmarshal(js, &aj) != nil {
+		e.b.Inconclusive("attestation replay: update not readable")
+		return true
+	}
+	for _, ae := range aj.AttestationElements {
+		if ae.ID == t.AttestationID(t.ID(), 0) {
+			n++
+			leaves = append(leaves, ae.StateElement.LeafIndex)
+		}
+	}
+	if n >= 2 {
+		e.b.Violate("C12/collision/attestation-vs-attestation/attestation-only-transaction-repeated",
+			fmt.Sprintf("a block containing the same attestation-only v2 transaction twice is accepted; applying it creates %d attestation elements (accumulator leaves %v) with the one ID %v", n, leaves, t.AttestationID(t.ID(), 0)), map[string]any{"height": cs.Index.Height + 1})
+	}
+	return true
+}
+
 func run(b *harness.B) {
 	nNets := b.Pick(6, 10)
 	blocks := b.Pick(200, 500)
@@ -754,10 +816,14 @@ func run(b *harness.B) {
 			e.blockBinding(cs, orig, bs)
 		}
 		c.OnStoreApplied = func(ev chaingen.ApplyEvent) { e.derivedVsCreated(ev) }
+		replayed := false
 		for done := 0; done < blocks; {
 			done += c.Grow(1+rng.IntN(10), chaingen.Plan{MaxTxns: 6})
 			if c.Height() > 2 && rng.IntN(8) == 0 {
 				c.RevertTip()
+			}
+			if !replayed {
+				replayed = e.attestationReplay()
 			}
 		}
 		if i == 0 {
